@@ -117,9 +117,7 @@ Definition fl_trunc_Z (x : fl) : option Z :=
   | _ => None
   end.
 
-(* strconv.FormatFloat(x, 'g', -1, 64) on the domain where the shortest
-   representation is the exact decimal expansion printed without exponent:
-   |x| < 10^6 and e >= -9 (at most 6 + 9 = 15 significant digits). *)
+(* decimal digits of a dyadic fraction (used by Model/AstPrint.v) *)
 Fixpoint frac_digits (fuel : nat) (num den : Z) : bstr :=
   (* decimal digits of num/den in [0,1), den a power of two, until exact *)
   match fuel with
@@ -129,7 +127,204 @@ Fixpoint frac_digits (fuel : nat) (num den : Z) : bstr :=
            (Z.to_N (48 + d)) :: frac_digits f ((num * 10) mod den) den
   end.
 
+
+(* ------------------------------------------------------------------ *)
+(* strconv.FormatFloat(x, 'g', -1, 64), for every finite float64 of the model.
+
+   DIGITS (strconv's "shortest" mode, ftoa.go roundShortest / ryuFtoaShortest): x = M * 2^E with
+   2^52 <= M < 2^53 is the only float64 in the interval between the midpoints to its two
+   neighbours, lo = (2M-1) 2^(E-1) (or (4M-1) 2^(E-2) when M = 2^52: the lower neighbour is
+   half as far) and hi = (2M+1) 2^(E-1); the end points belong to the interval when M is even
+   (round-half-even reads them back as x).  The digits are those of the decimal c * 10^(-p)
+   with the fewest significant digits n that lies in the interval; when x rounded down and x
+   rounded up to n digits both do, the one nearer to x (a tie: the even one).
+   All arithmetic is exact on integers: x, lo, hi are numerators over the common power of two [den].
+
+   FORMAT ('g' with precision -1: ftoa.go formatDigits, eprec = 6): with dp the position of the
+   decimal point relative to the digits, exponent form d.ddde+XX (at least two exponent digits)
+   when dp - 1 < -4 or dp - 1 >= 6, otherwise plain positional notation.
+   (The exponent threshold is 6, not JavaScript's 21: 1000000.0 prints as 1e+06.)
+
+   Not verified in Coq: the harness of C01 compares this function with the real strconv on
+   systematic and random float64 values on every run. *)
+Definition pow10 (k : Z) : Z := 10 ^ k.
+
+(* c * 10^(-p)  compared with  n / d   (d > 0) *)
+Definition scaled_cmp (c p n d : Z) : comparison :=
+  if 0 <=? p then Z.compare (c * d) (n * pow10 p) else Z.compare (c * pow10 (- p) * d) n.
+
+(* 10^k <= num / den *)
+Definition ge_pow10 (num den k : Z) : bool :=
+  if 0 <=? k then den * pow10 k <=? num else den <=? num * pow10 (- k).
+
+(* the k with 10^(k-1) <= num/den < 10^k: estimated from the bit lengths, then checked *)
+Definition dec_exponent (num den : Z) : option Z :=
+  let k0 := ((Z.log2 num - Z.log2 den) * 30103) / 100000 in
+  find (fun k => ge_pow10 num den (k - 1) && negb (ge_pow10 num den k)) [k0 - 1; k0; k0 + 1; k0 + 2].
+
+Definition in_interval (incl : bool) (lo hi den c p : Z) : bool :=
+  match scaled_cmp c p lo den with Gt => true | Eq => incl | Lt => false end &&
+  match scaled_cmp c p hi den with Lt => true | Eq => incl | Gt => false end.
+
+(* the first n' >= n for which an n'-digit decimal lies in the interval: (c, p), value c * 10^(-p) *)
+Fixpoint shortest_from (fuel : nat) (n k : Z) (incl : bool) (x lo hi den : Z) : option (Z * Z) :=
+  match fuel with
+  | O => None
+  | S f =>
+      let p := n - k in
+      let tn := if 0 <=? p then x * pow10 p else x in
+      let td := if 0 <=? p then den else den * pow10 (- p) in
+      let cd := tn / td in
+      let r := tn mod td in
+      let cu := cd + 1 in
+      if r =? 0 then Some (cd, p)
+      else
+        let dok := in_interval incl lo hi den cd p in
+        let uok := in_interval incl lo hi den cu p in
+        if dok && uok then
+          Some (match Z.compare (2 * r) td with
+                | Lt => cd
+                | Gt => cu
+                | Eq => if Z.even cd then cd else cu
+                end, p)
+        else if dok then Some (cd, p)
+        else if uok then Some (cu, p)
+        else shortest_from f (n + 1) k incl x lo hi den
+  end.
+
+(* rounding up may carry (9.99 -> 10): drop the trailing zeros *)
+Fixpoint strip10 (fuel : nat) (c p : Z) : Z * Z :=
+  match fuel with
+  | O => (c, p)
+  | S f => if (c mod 10 =? 0) && negb (c =? 0) then strip10 f (c / 10) (p - 1) else (c, p)
+  end.
+
+(* digits and position of the decimal point (value = 0.d1d2... * 10^dp) of a * 2^e, a odd, 0 < a < 2^53 *)
+Definition shortest_decimal (a e : Z) : option (bstr * Z) :=
+  let shift := 53 - (Z.log2 a + 1) in
+  let s := e - shift - 2 in
+  let X := 4 * a * 2 ^ shift in
+  let HI := X + 2 in
+  let LO := if a =? 1 then X - 1 else X - 2 in
+  let incl := 1 <=? shift in
+  let sc := if 0 <=? s then 2 ^ s else 1 in
+  let den := if 0 <=? s then 1 else 2 ^ (- s) in
+  match dec_exponent (X * sc) den with
+  | None => None
+  | Some k =>
+      match shortest_from 17 1 k incl (X * sc) (LO * sc) (HI * sc) den with
+      | None => None
+      | Some (c, p) =>
+          let '(c', p') := strip10 20 c p in
+          let ds := dec_of_Z c' in
+          Some (ds, Z.of_nat (length ds) - p')
+      end
+  end.
+
+Definition zeros (n : Z) : bstr := repeat 48%N (Z.to_nat n).
+
+(* formatDigits for 'g', shortest *)
+Definition fmt_g (sign ds : bstr) (dp : Z) : bstr :=
+  let nd := Z.of_nat (length ds) in
+  let ex := dp - 1 in
+  if (ex <? -4) || (6 <=? ex) then
+    let mant := match ds with
+                | [] => []
+                | d :: rest => d :: match rest with [] => [] | _ => 46%N :: rest end
+                end in
+    let exd := dec_of_Z (Z.abs ex) in
+    let exd2 := match exd with [_] => 48%N :: exd | _ => exd end in
+    sign ++ mant ++ [101%N; if ex <? 0 then 45%N else 43%N] ++ exd2
+  else if dp <=? 0 then sign ++ [48; 46]%N ++ zeros (- dp) ++ ds
+  else if nd <=? dp then sign ++ ds ++ zeros (dp - nd)
+  else sign ++ firstn (Z.to_nat dp) ds ++ [46%N] ++ skipn (Z.to_nat dp) ds.
+
 Definition fl_to_string (x : fl) : option bstr :=
+  match x with
+  | FNaN => Some [78; 97; 78]%N                      (* NaN *)
+  | FInf false => Some [43; 73; 110; 102]%N          (* +Inf *)
+  | FInf true => Some [45; 73; 110; 102]%N           (* -Inf *)
+  | FZero false => Some [48]%N
+  | FZero true => Some [45; 48]%N
+  | FFin m e =>
+      let sign : bstr := if m <? 0 then [45]%N else [] in
+      match Z.abs m with
+      | Zpos p =>
+          let '(q, e') := strip2 p e in
+          (* a float64 of the normal range: 53 bits, and the range of mk_fl *)
+          if (Zpos q <? two53) && (-1000 <? e') && (e' <? 900) then
+            match shortest_decimal (Zpos q) e' with
+            | Some (ds, dp) => Some (fmt_g sign ds dp)
+            | None => None
+            end
+          else None
+      | _ => None
+      end
+  end.
+
+(* ------------------------------------------------------------------ *)
+(* IEEE 754 results of + - * / on finite operands: the exact result rounded to the nearest
+   binary64, ties to even (the only rounding mode Go and JavaScript use).  The exact operations
+   above ([fl_add] ... [fl_div], [None] when the exact result is not a binary64) stay what the
+   built-in functions use; the arithmetic OPERATORS of the expression language use these.
+   [None] now only means: NaN or an infinity among the operands, or a result outside the
+   exponent range of [mk_fl] (overflow / the subnormal range).
+   Not verified against IEEE 754 in Coq; the correspondence runs of C01/C02/C04 compare the
+   extracted functions with the hardware arithmetic of Go (and of node for C04). *)
+
+(* the value with at most 53 significant bits nearest to M * 2^E, ties to even *)
+Definition round53 (M E : Z) : Z * Z :=
+  let a := Z.abs M in
+  let n := Z.log2 a + 1 in
+  if n <=? 53 then (M, E)
+  else
+    let shift := n - 53 in
+    let hi := a / 2 ^ shift in
+    let lo := a mod 2 ^ shift in
+    let half := 2 ^ (shift - 1) in
+    let hi' := match Z.compare lo half with
+               | Gt => hi + 1
+               | Lt => hi
+               | Eq => if Z.even hi then hi else hi + 1
+               end in
+    (if M <? 0 then - hi' else hi', E + shift).
+
+Definition mk_fl_r (M E : Z) : option fl := let '(m, e) := round53 M E in mk_fl m e.
+
+Definition fl_add_r (x y : fl) : option fl :=
+  match x, y with
+  | FFin m1 e1, FFin m2 e2 =>
+      let e := Z.min e1 e2 in
+      mk_fl_r (m1 * 2 ^ (e1 - e) + m2 * 2 ^ (e2 - e)) e
+  | _, _ => fl_add x y
+  end.
+
+Definition fl_sub_r (x y : fl) : option fl := fl_add_r x (fl_neg y).
+
+Definition fl_mul_r (x y : fl) : option fl :=
+  match x, y with
+  | FFin m1 e1, FFin m2 e2 => mk_fl_r (m1 * m2) (e1 + e2)
+  | _, _ => fl_mul x y
+  end.
+
+(* the quotient to 56 or more bits plus a sticky bit for the remainder, then rounded *)
+Definition fl_div_r (x y : fl) : option fl :=
+  match x, y with
+  | FFin m1 e1, FFin m2 e2 =>
+      let a := Z.abs m1 in
+      let c := Z.abs m2 in
+      let k := Z.max 0 (56 + Z.log2 c - Z.log2 a) in
+      let num := a * 2 ^ k in
+      let mp := 2 * (num / c) + (if num mod c =? 0 then 0 else 1) in
+      mk_fl_r (if xorb (m1 <? 0) (m2 <? 0) then - mp else mp) (e1 - e2 - k - 1)
+  | _, _ => fl_div x y
+  end.
+
+(* The restricted printer the JSON models use: exact decimal expansion without exponent, defined only for
+   integers below 10^6 and fractions with at most nine binary places -- the domain where strconv's 'g' form
+   (Float.String, [fl_to_string]) and encoding/json's float layout agree.  Outside it the JSON models answer
+   OutOfModel.  (This is the definition [fl_to_string] had before it was extended to every float.) *)
+Definition fl_to_string_dom (x : fl) : option bstr :=
   match x with
   | FNaN => Some [78; 97; 78]%N                      (* NaN *)
   | FInf false => Some [43; 73; 110; 102]%N          (* +Inf *)
